@@ -175,7 +175,7 @@ class OutstationProp(Prop):
                 ops.append(("rx", s if s is not None else src, c if c is not None else bc, hexs(b)))
             if focus == "controls" and r < 55 or r < 12:
                 objs = self.rand_controls(rng, many=rng.chance(1, 10))
-                kind = rng.choice(["sbo", "sbo", "sbo-gap", "sbo-late", "sbo-wrongseq", "sbo-diff", "op-only", "direct", "direct_nr", "sbo-repeat", "sbo-retx-op"])
+                kind = rng.choice(["sbo", "sbo", "sbo-gap", "sbo-late", "sbo-wrongseq", "sbo-diff", "op-only", "direct", "direct_nr", "sbo-repeat", "sbo-retx-op", "sbo-xx", "sbo-fail-retx"])
                 if kind.startswith("sbo"):
                     rx(frag(seq, FN["select"], objs), MASTER, "none")
                     if kind == "sbo-gap":
@@ -185,6 +185,17 @@ class OutstationProp(Prop):
                         ops.append(("sleep", cfg["select_ms"] + rng.choice([-2, -1, 0, 1, 2])))
                     if kind == "sbo-repeat":
                         rx(frag(seq, FN["select"], objs), MASTER, "none")
+                    if kind == "sbo-xx":
+                        # another request and its retransmission between SELECT and OPERATE
+                        x = frag(rng.below(16), rng.choice([FN["write"], FN["delay"], FN["disable"]]), b"")
+                        rx(x, MASTER, "none"); rx(x, MASTER, "none")
+                    if kind == "sbo-fail-retx":
+                        # a later SELECT that the handler refuses, retransmitted, must not revive the old one
+                        rx(frag((seq + 3) & 15, FN["read"], read_classes((0,))), MASTER, "none")
+                        ops.append(("handler", 4, 0))
+                        s2 = frag(seq, FN["select"], objs)
+                        rx(s2, MASTER, "none"); rx(s2, MASTER, "none")
+                        ops.append(("handler", 0, 0))
                     oseq = (seq + 1) & 15 if kind != "sbo-wrongseq" else (seq + rng.choice([0, 2, 5])) & 15
                     oobjs = objs if kind != "sbo-diff" else self.rand_controls(rng)
                     rx(frag(oseq, FN["operate"], oobjs), MASTER, "none")
